@@ -11,6 +11,9 @@ import (
 	"github.com/AliceO2Group/Control/common/utils/uid"
 	"github.com/AliceO2Group/Control/core/integration"
 	pb "github.com/AliceO2Group/Control/core/protos"
+	evpb "github.com/AliceO2Group/Control/common/protos"
+	"github.com/AliceO2Group/Control/common/event/topic"
+	"github.com/AliceO2Group/Control/core/the"
 	mesos "github.com/mesos/mesos-go/api/v1/lib"
 	"verif/harness/internal/simcore"
 	"verif/harness/internal/vplugin"
@@ -66,6 +69,51 @@ func roster(id uid.ID) {
 	}
 }
 
+type capW struct{}
+
+func (capW) WriteEvent(e interface{}) {
+	switch ev := e.(type) {
+	case *evpb.Ev_EnvironmentEvent:
+		fmt.Printf("      EV env st=%s tr=%s step=%s msg=%q err=%v\n", ev.State, ev.Transition, ev.TransitionStep, ev.Message, ev.Error != "")
+	case *evpb.Ev_RunEvent:
+		fmt.Printf("      EV run st=%s tr=%s status=%s rn=%d\n", ev.State, ev.Transition, ev.TransitionStatus, ev.RunNumber)
+	}
+}
+func (w capW) WriteEventWithTimestamp(e interface{}, _ time.Time) { w.WriteEvent(e) }
+func (capW) Close()                                             {}
+
+var launchScript = map[string]string{} // role path -> "run"|"fail"|"silent"
+
+func director() {
+	seen := map[string]bool{}
+	for {
+		time.Sleep(time.Millisecond)
+		ros := sim.Taskman.VerifRoster()
+		for _, t := range ros {
+			if seen[t.TaskId] || t.RolePath == "" {
+				continue
+			}
+			seen[t.TaskId] = true
+			switch launchScript[t.RolePath] {
+			case "", "run":
+				sim.C02MarkRunning(t.TaskId)
+				simcore.WaitFor(time.Second, func() bool {
+					for _, u := range sim.Taskman.VerifRoster() {
+						if u.TaskId == t.TaskId {
+							return u.Status == "ACTIVE"
+						}
+					}
+					return true
+				})
+				time.Sleep(time.Millisecond)
+			case "fail":
+				sim.FailTask(t.TaskId, mesos.TASK_FAILED)
+				time.Sleep(2 * time.Millisecond)
+			}
+		}
+	}
+}
+
 func main() {
 	rec := vplugin.NewRecorder()
 	wfs := map[string]string{
@@ -93,6 +141,10 @@ func main() {
 		fmt.Println("ERR", err)
 		os.Exit(1)
 	}
+	if os.Getenv("EVENTS") != "" {
+		the.VerifC02SetEventWriter(topic.Environment, capW{})
+		the.VerifC02SetEventWriter(topic.Run, capW{})
+	}
 	roleOf := func(taskId string) string {
 		for _, t := range sim.Taskman.VerifRoster() {
 			if t.TaskId == taskId {
@@ -108,7 +160,8 @@ func main() {
 		}
 		return simcore.CmdAck
 	}
-	sim.Beh.Launch = func(ti mesos.TaskInfo) string { return "running" }
+	sim.Beh.Launch = func(ti mesos.TaskInfo) string { return "silent" }
+	go director()
 
 	create := func(wf string) (uid.ID, error) {
 		done := make(chan struct{})
